@@ -217,6 +217,8 @@ FUNCS = {
     "_plain_int": Fn("Pre.plainInt", [STR], INT, raises=("ValueError",)),
     "posixpath.normpath": Fn("Wz.Paths.normpath", [STR], STR),
     "posixpath.isabs": Fn("Wz.Paths.isabs", [STR], BOOL),
+    # posixpath.join(a, *p) called as join(*parts): TypeError when parts is empty
+    "posixpath.join(*)": Fn("Pre.starCall1 Wz.Paths.join", [Lst(STR)], STR, raises=("TypeError",)),
 }
 
 
@@ -360,6 +362,7 @@ class Translator:
         self.result_ty = parse_ty(spec.result)
         self.aux = []  # text of auxiliary definitions (loops), in order
         self.nloops = 0
+        self.loop_memo = {}
         self.size = 0
         self.tmp = 0
         self.where = f"{spec.module}:{spec.qualname}"
@@ -375,10 +378,23 @@ class Translator:
         raise Untranslatable(f"{self.where}: line {ln}: {why}: `{txt[:160]}`")
 
     def srcline(self, node):
+        """source text of a simple statement, or of the header line(s) of a compound one"""
         ln = getattr(node, "lineno", None)
         if ln is None:
             return ""
-        return self.lines[ln - 1].strip()
+        end = ln
+        if isinstance(node, (ast.If, ast.While)):
+            end = getattr(node.test, "end_lineno", ln)
+            # the line that carries the closing `:` of the header
+            while end < len(self.lines) and not self.lines[end - 1].rstrip().endswith(":") and end < node.body[0].lineno - 1:
+                end += 1
+        elif isinstance(node, ast.For):
+            end = getattr(node.iter, "end_lineno", ln)
+        elif isinstance(node, (ast.Try, ast.ExceptHandler)):
+            end = ln
+        else:
+            end = getattr(node, "end_lineno", ln) or ln
+        return " ".join(x.strip() for x in self.lines[ln - 1 : end])
 
     # ---- locating the function ------------------------------------------
 
@@ -863,14 +879,21 @@ class Translator:
             self.bad(n, "call of a local variable")
         if isinstance(f, ast.Name) and f.id in ("len", "min", "max", "any", "all", "isinstance", "bool", "str"):
             return None
+        args = list(n.args)
+        if any(isinstance(a, ast.Starred) for a in args):
+            # f(*xs): only as the single argument, mapped to a dedicated table entry "f(*)"
+            if len(args) != 1 or d is None:
+                self.bad(n, "starred argument mixed with other arguments")
+            d = d + "(*)"
+            args = [args[0].value]
         if d is not None:
             root = d.split(".")[0]
             known_value = root in env or any(d.startswith(c + ".") for c in list(env) + list(self.spec.consts))
             if not known_value:
                 if d in self.spec.calls:
-                    return self.spec.calls[d], list(n.args)
+                    return self.spec.calls[d], args
                 if d in FUNCS:
-                    return FUNCS[d], list(n.args)
+                    return FUNCS[d], args
                 self.bad(n, f"call of {d!r} is not in py2lean's tables")
         if isinstance(f, ast.Attribute):
             recv = self.plain(self.expr(f.value, env), f.value)
@@ -1228,7 +1251,66 @@ class Translator:
             return lines + k(env2, loop)
         self.bad(s, "assignment target that is not a local name or a tuple of names")
 
+    def simple_if(self, s, env):
+        """`if c: v1 = e1; v2 = e2` (no else; only re-assignments of defined plain variables
+        that keep their type; nothing that needs a case split, an unwrap or can raise) ->
+        [(name, E)] and the condition, else None"""
+        if s.orelse or not s.body:
+            return None
+
+        def splits(x):
+            return [nm for nm in none_tested_names(x) if nm in env and env[nm].ty.kind in ("Opt", "None")]
+
+        if splits(s.test):
+            return None
+        try:
+            if self.raising_calls(s.test, env):
+                return None
+            c = self.cond(s.test, env)
+            if c.const is not None:
+                return None
+            env2 = dict(env)
+            out = []
+            for st in s.body:
+                if isinstance(st, ast.AugAssign) and isinstance(st.target, ast.Name):
+                    value = ast.BinOp(left=ast.Name(id=st.target.id, ctx=ast.Load()), op=st.op, right=st.value)
+                    ast.copy_location(value, st)
+                    ast.fix_missing_locations(value)
+                    tgt = st.target.id
+                elif isinstance(st, ast.Assign) and len(st.targets) == 1 and isinstance(st.targets[0], ast.Name):
+                    value, tgt = st.value, st.targets[0].id
+                else:
+                    return None
+                if tgt not in env2 or env2[tgt].ty.kind in ("Opt", "None"):
+                    return None
+                if splits(value) or self.raising_calls(value, env2):
+                    return None
+                e = self.expr(value, env2)
+                if e.ty != env2[tgt].ty:
+                    return None
+                out.append((st, tgt, e))
+                # later statements of the branch see the new value under the same name: the
+                # emitted `let` shadows it, so env2 is unchanged
+            return c, out
+        except (NeedUnwrap, NoneUsed):
+            return None
+
     def stmt_if(self, s, env, loop, k):
+        simple = self.simple_if(s, env)
+        if simple is not None:
+            c, assigns = simple
+            lines = self.comment(s)
+            cname = c.lean
+            if len(assigns) > 1 or any(tgt in free_names([s.test]) for _, tgt, _ in assigns[:-1]):
+                self.tmp += 1
+                cname = f"c{self.tmp}_"
+                lines.append(f"let {cname} : Bool := {c.lean}")
+            for st, tgt, e in assigns:
+                v = env[tgt]
+                lines += ["  " + x for x in self.comment(st)]
+                lines.append(f"let {v.lean} : {lean_ty(v.ty)} := if {cname} then {e.lean} else {v.lean}")
+            return lines + k(env, loop)
+
         def body(env1):
             def inner(env2):
                 c = self.cond(s.test, env2)
@@ -1294,7 +1376,7 @@ class Translator:
         for nm, ty in zip(lc.state, lc.state_tys):
             v = env[nm]
             items.append(self.coerce(E(v.lean, v.ty, None, True, nm), ty, node).lean)
-        return "(" + ", ".join(items) + ")" if len(items) > 1 else P(E(items[0], lc.state_tys[0]))
+        return "(" + ", ".join(items) + ")" if len(items) > 1 else (items[0] if _is_atomic_text(items[0]) else f"({items[0]})")
 
     def stmt_for(self, s, env, loop, k):
         if loop is not None:
@@ -1318,8 +1400,7 @@ class Translator:
             state_tys = [env1[nm].ty for nm in state]
             used = free_names(s.body)
             captured = [nm for nm in env1 if nm in used and nm not in state and nm not in targets and env1[nm].ty != NONE]
-            self.nloops += 1
-            fname = f"{self.spec.name}.loop{self.nloops}"
+            fname = f"{self.spec.name}.loop{self.nloops + 1}"
             head = self.opaque_args + "".join(" " + env1[nm].lean for nm in captured)
             lc = LoopCtx(fname, head, state, state_tys)
             # --- auxiliary definition
@@ -1351,13 +1432,23 @@ class Translator:
             st_ty = "Unit" if not state else " × ".join(lean_ty(t, False) for t in state_tys)
             binders = "".join(f" ({nm} : {ty})" for nm, ty in self.spec.opaque)
             binders += "".join(f" ({env1[nm].lean} : {lean_ty(env1[nm].ty)})" for nm in captured)
-            sig = " → ".join([f"List {lean_ty(elt, False)}"] + [lean_ty(t, False) for t in state_tys] + [f"Pre.Loop {_par(self.ret_lean_ty)} {_par(st_ty)}"])
+            sig = " → ".join([f"List {lean_ty(elt, False)}"] + [lean_ty(t, True) for t in state_tys] + [f"Pre.Loop {_par(self.ret_lean_ty)} {_par(st_ty)}"])
             st_pats = "".join(", " + env1[nm].lean for nm in state)
             aux = [f"/-- the `{self.srcline(s)}` loop of `{self.spec.qualname}`: `.ret r` = the function returned `r` inside the loop, `.fall st` = the loop ended with loop state `st` -/", f"def {fname}{binders} : {sig}"]
             aux.append(f"  | []{st_pats} => .fall {self.state_tuple(lc, env_b, s)}")
             aux.append(f"  | {pat_x} :: rest_{st_pats} =>")
             aux += ["    " + ln for ln in lines_bind + body_lines]
-            self.aux.append("\n".join(aux) + "\n")
+            text = "\n".join(aux) + "\n"
+            # the same loop reached on several paths (duplicated continuations) is emitted once
+            key = (id(s), text.replace(fname, "<loop>"))
+            if key in self.loop_memo:
+                old = self.loop_memo[key]
+                lc.fname = old
+                fname = old
+            else:
+                self.nloops += 1
+                self.loop_memo[key] = fname
+                self.aux.append(text)
             # --- use
             init = "".join(" " + P(E(env1[nm].lean, env1[nm].ty, None, True)) for nm in state)
             call = f"{fname}{head} {P(it)}{init}"
